@@ -243,7 +243,11 @@ class PyramidIO(object):
             default_format = "png"
 
             if os.path.exists(base_dir) and os.path.isdir(base_dir):
-                for filename in glob.iglob(os.path.join(base_dir, tile_pattern)):
+                # The directory name is taken literally: only the tile pattern
+                # is a glob ("tiles[1]" holds a character class otherwise).
+                for filename in glob.iglob(
+                    os.path.join(glob.escape(base_dir), tile_pattern)
+                ):
                     extension = os.path.splitext(filename)[1][1:]
                     if extension in SUPPORTED_FORMATS:
                         default_format = extension
